@@ -148,7 +148,9 @@ def call_seq(kind, vs, variant):
     """the calls of one object: list of (method, args) descriptions"""
     if kind == 'dt_on':
         vals = [(2.0, -1.0), (-1.0, 2.0), (0.0, 0.0)] if variant == 0 else [(-1.0, -1.0), (2.0, 0.0), (2.0, 2.0)]
-        return [('update', i, [[v, vals[i][k % 2]] for k, v in enumerate(vs)]) for i in range(3)]
+        if variant >= 2:   # four calls: one object sees its extreme value first, the other one last
+            vals = [(2.0, -1.0), (-1.0, 2.0), (0.0, 0.0), (-1.0, -1.0)] if variant == 2 else [(-1.0, -1.0), (0.0, 0.0), (-1.0, 2.0), (2.0, 0.0)]
+        return [('update', i, [[v, vals[i][k % 2]] for k, v in enumerate(vs)]) for i in range(len(vals))]
     if kind == 'dt_off':
         traces = [{'time': [0, 1], 'x': [2.0, -1.0], 'y': [-1.0, 2.0]}, {'time': [0, 1, 2], 'x': [-1.0, -1.0, 2.0], 'y': [2.0, 0.0, 0.0]},
                   {'time': [0], 'x': [0.0], 'y': [2.0]}]
@@ -189,6 +191,12 @@ def isolation_groups(tier):
         [('dt_off', t6, ['x', 'y'], (), False, 0, (500, 'ms')), ('dt_on', t6, ['x', 'y'], (), False, 0, (1, 's'))],
         [('dt_off', t4.replace('[0,1]', '[0,2]'), ['x'], (), False, 0, (2, 's')), ('dt_off', t4.replace('[0,1]', '[0,2]'), ['x'], (), False, 1, (1, 's'))],
     ]
+    # wide windows (an implementation that switches to another data structure above some width may share it between objects)
+    for tw, past in (('out = once[0,4] x', True), ('out = historically[0,8] (x >= 0)', True), ('out = (x >= 0) since[2,7] (y <= 1)', True),
+                     ('out = eventually[0,5] x', False), ('out = always[2,9] (x >= 0)', False)):
+        g2.append([('dt_on', tw, ['x', 'y'] if 'y' in tw else ['x'], (), not past, 2), ('dt_on', tw, ['x', 'y'] if 'y' in tw else ['x'], (), not past, 3)])
+    g2.append([('dt_on', 'out = once[1,6] x', ['x'], (), False, 2), ('dt_on', 'out = once[0,5] (x >= 0)', ['x'], (), False, 3)])
+    g2.append([('dt_on', 'out = (once[0,4] x) and (once[0,5] y)', ['x', 'y'], (), False, 2), ('dt_on', 'out = historically[0,4] x', ['x'], (), False, 3)])
     g3 = [
         [('dt_on', t1, ['x', 'y'], (), False, 0), ('dt_on', t1, ['x', 'y'], (), False, 1), ('dt_off', t1, ['x', 'y'], (), False, 0)],
         [('dt_on', t3, ['x'], sub, False, 0), ('dt_on', t3, ['x'], sub, True, 1), ('ct_on', t5, ['x'], (), False, 0)],
